@@ -82,7 +82,8 @@ def document(tpl, settings):
         defs = f'<g id="t">{A}{B}</g>'
         body = f'<g{a("g1")}><use xlink:href="#t" x="4" y="3"{a("use")}/></g>'
     else:
-        C = f'<rect x="40" y="10" width="45" height="35" fill="teal"{a("C")}/>'
+        cfill = "" if any(s[0] == "C" and s[1] == "fill" and s[2] in ("attr", "both") for s in settings) else ' fill="teal"'
+        C = f'<rect x="40" y="10" width="45" height="35"{cfill}{a("C")}/>'
         body = f'<g{a("g1")}>{A}{C}</g>{B}'
         defs = ""
     d = f"<defs>{defs}</defs>" if defs else ""
